@@ -26,6 +26,8 @@ func TestMain(m *testing.M) {
 	ev.MustHit("nested>=3", "revert-to-outer-snapshot", "revert-across>=2-kinds", "revert-across-suicide-of-recreated",
 		"revert-after-finalise", "revert-across-log", "revert-across-refund", "revert-across-recreate",
 		"mid:commit+reopen", "mid:commit+reopen-from-disk", "mid:root-checked", "continue-after-reset", "continue-on-committed-statedb",
+		"reopen:older-root", "mid:reopen:older-root", "reopen:after-continued-use", "mid:reopen:after-continued-use", "reopen:after-continued-use+recommit",
+		"reopen:not-the-latest-commit", "reopen:older-root-from-disk", "reopen:continue-on-older-root", "reopen:live-state-set-aside", "reopen:reset-to-older-root",
 		"copy-after-dirty-writes", "continue-on-copy", "copy-after-finalise",
 		"touched-empty-removed", "untouched-empty-survives-deleteEmpty", "suicided-removed", "ripemd-touch-reverted",
 		"recreate-over-storage", "storage-slot-cleared",
@@ -35,8 +37,12 @@ func TestMain(m *testing.M) {
 		Level:    "exploration",
 		Rule: "a case = a committed pre-state over 2-6 addresses drawn from a fixed pool (absent / existing-empty / funded / nonce-only / contract with storage / empty with storage; 0x03 included in half the cases) " +
 			"plus a rapid state-machine run (geometric length, mean 40 quick / 100 thorough) of create, add/sub/set balance, zero-value touch, set nonce, set code, set/clear storage over 4 slots, self-destruct, log, refund, preimage, " +
-			"snapshot, revert to any live snapshot, Finalise, IntermediateRoot, Commit (then continue on the same object / Reset / reopen on the same database / reopen from disk) and Copy or ManageState (continue on either side); " +
+			"snapshot, revert to any live snapshot, Finalise, IntermediateRoot, Commit (then continue on the same object / Reset / reopen on the same database / reopen from disk), Copy or ManageState (continue on either side) " +
+			"and reopen of ANY root committed earlier in the case, the pre-state included (check only / continue the case on that older state while the abandoned live state is set aside and must not move / Reset a dirtied scratch StateDB to it); " +
 			"after every operation every getter is compared with the model for all addresses x slots, every IntermediateRoot/Commit root with refmpt over the model content, every reopened state getter by getter and by RawDump; " +
+			"every committed root is kept with the model content of its commit and the state.Database it was committed through, and is reopened through that same database (and, once flushed, through a new database over the disk) " +
+			"at drawn points of the sequence and, all of them, at the end of the case - i.e. after the committing StateDB, its copies and the database's cache of recent tries have been used further (more writes, Finalise/IntermediateRoot/Commit again, commits of forks): " +
+			"getters, dump and IntermediateRoot of the reopened state must be those of that commit (label reopen:after-continued-use = the committing StateDB had since folded different content into the same account trie object); " +
 			"TestHistoryIndependence runs pairs of different histories with equal model content (inserted reverted detours; direct construction in shuffled order) and requires equal roots. " +
 			"non-trivial = the case contains a revert that crosses >= 2 state changes of different kinds; distinct by hash of (pre-state, executed operation list)",
 		Assumptions: []string{
@@ -45,6 +51,7 @@ func TestMain(m *testing.M) {
 			"deleteEmptyObjects is constant between two Commits of one StateDB (every caller derives it from the block number: state_processor.go, consensus.go, blockchain.go, chain_makers.go); it is drawn anew per epoch",
 			"SubBalance is only called with amount <= balance (callers check CanTransfer); balances stay below 2^136",
 			"snapshots are used only until the next Finalise/IntermediateRoot/Commit (the journal is cleared there by design); Copy does not carry snapshots over",
+		"a root counts as committed once StateDB.Commit returned it; nothing in a case calls trie.Database.Dereference (the node's pruning of old roots is a deliberate act of core/blockchain.go and outside this property), so every committed root must stay readable through the database it was committed through; through a new database over the disk only roots flushed with TrieDB().Commit are opened",
 			"StateDB.Error() is not judged (GetCodeSize on a code-less account memoises a benign lookup error by design of this version)",
 		},
 	})
@@ -190,6 +197,10 @@ func (a actor) do(t *rapid.T, kind string) bool {
 		return w.exec(Op{K: kind, M: rapid.IntRange(0, 3).Draw(t, "continue"), F: rapid.Bool().Draw(t, "nextDeleteEmpty")})
 	case "copy":
 		return w.exec(Op{K: kind, M: rapid.IntRange(0, 1).Draw(t, "how"), F: rapid.Bool().Draw(t, "onCopy")})
+	case "reopen":
+		// any root committed so far in this case, the older ones included
+		return w.exec(Op{K: kind, N: uint64(rapid.IntRange(0, len(w.history)-1).Draw(t, "which")),
+			M: rapid.SampledFrom([]int{0, 0, 1, 2}).Draw(t, "then"), F: rapid.Bool().Draw(t, "nextDeleteEmpty")})
 	}
 	panic("unknown action " + kind)
 }
@@ -227,7 +238,7 @@ func TestStateMachine(t *testing.T) {
 		}
 		// weights: structure operations appear under several keys
 		for _, k := range []string{"snapshot", "snapshot#2", "snapshot#3", "snapshot#4", "snapshot#5", "revert", "revert#2", "revert#3", "revert#4",
-			"suicide#2", "create#2", "touch#2", "finalise", "root", "commit", "copy", "observe"} {
+			"suicide#2", "create#2", "touch#2", "finalise", "root", "commit", "copy", "observe", "reopen", "reopen#2"} {
 			reg(k, strings.SplitN(k, "#", 2)[0])
 		}
 		t.Repeat(acts)
@@ -494,7 +505,7 @@ func TestReplay(t *testing.T) {
 // ---------- native fuzzing: bytes -> case ----------
 
 var fuzzKinds = []string{"addBalance", "subBalance", "setBalance", "setNonce", "setCode", "setState", "suicide", "create", "touch", "log", "refund",
-	"snapshot", "snapshot", "revert", "revert", "finalise", "root", "commit", "copy", "observe"}
+	"snapshot", "snapshot", "revert", "revert", "finalise", "root", "commit", "copy", "observe", "reopen"}
 
 func decodeFuzz(data []byte) *Case {
 	if len(data) < 3 {
@@ -558,6 +569,10 @@ func decodeFuzz(data []byte) *Case {
 		case "copy":
 			o.M = x % 2
 			o.F = x&2 == 2
+		case "reopen":
+			o.N = uint64(x / 8)
+			o.M = x % 3
+			o.F = x&4 == 4
 		}
 		cs.Ops = append(cs.Ops, o)
 	}
